@@ -413,6 +413,19 @@ def make_kw(desc):
                 return lam * f0, lam * f0o, lam * g, deque([lam * gi for gi in G])
             return f0, f0o, g, G
         kw["update_fun_def"] = upd
+    if o.get("upd") == "adversarial":
+        from collections import deque
+        st = {"n": 0}
+        at, mask, drop = o.get("adv_at", 3), o.get("adv_mask", 5), o.get("adv_drop", False)
+
+        def upd_adv(x, f0, f0o, g, X, G):
+            st["n"] += 1
+            if st["n"] == at:
+                # arbitrary rewrite of the stored gradients: breaks the curvature of a subset of pairs
+                G2 = deque([(-1.0 if (mask >> (i % 8)) & 1 else 1.0) * np.asarray(gi, float) for i, gi in enumerate(G)])
+                return (f0 - (1e9 if drop else 0.0)), f0o, g, G2
+            return f0, f0o, g, G
+        kw["update_fun_def"] = upd_adv
     if o.get("fault") is not None:
         kind, at, en = o["fault"]
         cnt = {"k": 0}
@@ -464,7 +477,12 @@ def gen_descs(tier, rng, focus=None):
         if focus == "scaler" or (focus is None and r < 0.15):
             opts["scaler"] = float(10 ** rng.uniform(-3, 3))
         elif focus == "upd" or (focus is None and r < 0.4):
-            opts["upd"] = str(rng.choice(["identity", "identity", "rescale"]))
+            opts["upd"] = str(rng.choice(["identity", "rescale", "adversarial", "adversarial"]))
+            if opts["upd"] == "adversarial":
+                opts.update(adv_at=int(rng.integers(1, 7)), adv_mask=int(rng.integers(1, 255)), adv_drop=bool(rng.random() < 0.3))
+                if opts["adv_drop"]:
+                    opts["ft"] = "mid"
+                cfg.update(maxiter=int(rng.integers(3, 30)), maxfun=int(rng.integers(20, 80)))
         elif focus == "fault" or (focus is None and r < 0.5):
             kind = str(rng.choice(["f", "g", "f", "g", "cb", "upd", "sc", "ft", "gt"]))
             opts["fault"] = [kind, int(rng.integers(1, 12)) if kind in ("f", "g") else int(rng.integers(1, 4)) if kind in ("cb", "upd") else 1,
